@@ -908,4 +908,13 @@ def minShape : List Nat → List Nat → List Nat
 /-- the cropped filter `h[:n_0, :n_1, …]`, flat over `minShape ks dims` -/
 def cropFilter {α : Type} (ks dims : List Nat) (h : V α) : V α := fun q => h (embedIdx (minShape ks dims) ks q)
 
+
+/-! ## Optical propagators (`scico/linop/optics.py: Propagator._eval`) -/
+
+/-- `Propagator._eval = F.inv(D @ F @ x)` with `F = DFT(input_shape, axes_shape = pad_factor · input_shape)`: forward
+    transform at the padded shape `ms`, multiplication by the transfer function `D`, inverse AS CODED -/
+def propEval {α : Type} [Add α] [Mul α] [Zero α] [One α] (ns ms : List Nat) (ws wns : List (Option α)) (s s' : α)
+    (D x : V α) : V α :=
+  dftInvCodedNd ns ms wns s' (fun f => D f * dftFwdPad ns ms ws s x f)
+
 end Scico.LinOps
